@@ -28,6 +28,10 @@ ALIGN_NEG = 0  # Text.align pads by a negative excess (text wider than the width
 RSTRIP_END_CHARS = 0  # 1 = as found: Text.rstrip_end compares the CHARACTER count with the cell width; 0 = fix f5f2be9 (in /repo now; was
 #                       pending_fixes/C08-rstrip-end-counts-cells.diff) makes it cell_len; separate request argument of text_rstrip_end, Lean: first argument of Text.rstripEndW
 RSTRIP_END_CHARS = int(__import__("os").environ.get("VERIF_C05_RSTRIP_END_CHARS", RSTRIP_END_CHARS))  # development aid, as VERIF_C05_FLAGS
+SPLIT_ENDSWITH = 1  # Text.split drops the last line when text.endswith(separator) - for a separator that overlaps itself ("aaa".split("aa")) that
+#                     line is not blank and characters are lost; 0 = pending_fixes/C05-split-overlapping-separator.diff (drop it when it is blank).
+#                     Separate request argument of text_split, Lean: first argument of Text.splitW
+SPLIT_ENDSWITH = int(__import__("os").environ.get("VERIF_C05_SPLIT_ENDSWITH", SPLIT_ENDSWITH))  # development aid
 FLAGS = "".join(str(x) for x in (CTOR_LEN, CROP_ENDS, STYLIZE_NEG, GETITEM, DIVIDE_ORDER, ALIGN_NEG))
 import os as _os
 
@@ -114,8 +118,8 @@ def gen_op(rng, n):
     k = rng.choices(
         ["append_str", "append_t", "append_text", "append_tokens", "assemble", "join_sep", "join_in", "split", "divide", "slice", "index",
          "pad", "pad_left", "pad_right", "align", "truncate", "right_crop", "set_length", "expand_tabs", "copy", "stylize", "highlight",
-         "copy_styles", "set_plain", "rstrip", "rstrip_end", "add"],
-        [8, 6, 4, 3, 3, 3, 3, 7, 8, 6, 3, 2, 3, 3, 4, 5, 5, 5, 5, 3, 9, 3, 3, 2, 2, 3, 2],
+         "copy_styles", "set_plain", "rstrip", "rstrip_end", "add", "remove_suffix", "fit", "indent_guides", "slice_step"],
+        [8, 6, 4, 3, 3, 3, 3, 7, 8, 6, 3, 2, 3, 3, 4, 5, 5, 5, 5, 3, 9, 3, 3, 2, 2, 3, 2, 2, 2, 3, 1],
     )[0]
     if k == "append_str":
         return (k, gen_string(rng, 5), rng.choice([None, None] + STYLES[:3]))
@@ -173,6 +177,14 @@ def gen_op(rng, n):
         return (k, gen_string(rng, n + 2, ctl=False))
     if k == "rstrip_end":
         return (k, rng.choice([0, 1, n - 2, n - 1, n, n + 1]))
+    if k == "remove_suffix":
+        return (k, rng.choice(["", "a", " ", "\n", "ab", "x", None, None, None]), rng.randint(0, 3))  # None: a real suffix of that many characters
+    if k == "fit":
+        return (k, rng.choice([0, 1, 2, 3, 5, n]), rng.randint(0, 5))
+    if k == "indent_guides":
+        return (k, rng.choice([None, None, 1, 2, 3, 4]), rng.choice(["│", "|", "あ"]), rng.choice(STYLES[:3]))
+    if k == "slice_step":
+        return (k, rng.choice([None, gen_int(rng, n)]), rng.choice([None, gen_int(rng, n)]), rng.choice([1, 2, -1, 0, 3, None]))
     return (k,)
 
 
@@ -336,12 +348,14 @@ def step(sink, t, r, op, first=False):
     if k == "add":
         if isinstance(op[1], str):
             res = py_ans(lambda: t + op[1])
+            single("text_add_str", [enc_str(op[1])], res)
             r = L.ref_append_str(r, op[1], None)
         else:
             u, ur = build_(op[1])
             if broken(u, ur):
                 raise Stop()
             res = py_ans(lambda: t + u)
+            single("text_add_t", [L.enc_text(u)], res)
             r = L.ref_append_ref(r, ur) if ur.cells else r
         if res[0] != "ok":
             raise Failure("__add__", None, "raised " + res[1])
@@ -412,10 +426,11 @@ def step(sink, t, r, op, first=False):
         if k == "split":
             _, sep, incl, blank, pick = op
             res = py_ans(lambda: list(t.split(sep, include_separator=incl, allow_blank=blank)))
-            fn, args = "text_split", [enc_str(sep), "1" if incl else "0", "1" if blank else "0"]
-            in_domain = not L.has_border(sep)
-            exp = L.ref_split(r, sep, incl, blank) if in_domain else None
+            fn, args = "text_split", [enc_str(sep), "1" if incl else "0", "1" if blank else "0", str(SPLIT_ENDSWITH)]
+            in_domain = True
+            exp = L.ref_split(r, sep, incl, blank)
             site = "split"
+            bordered = L.has_border(sep)
         else:
             _, offs, pick = op
             res = py_ans(lambda: list(t.divide(offs)))
@@ -431,7 +446,8 @@ def step(sink, t, r, op, first=False):
         if status != "ok":
             raise Failure(site, None, "raised " + val)
         if len(val) != len(exp):
-            raise Failure(site, None, f"{len(val)} pieces {[x.plain for x in val]!r}, an ordinary string gives {[x.s() for x in exp]!r}")
+            slug = "split-overlapping-separator" if k == "split" and bordered and len(val) == len(exp) - 1 else None
+            raise Failure(site, slug, f"{len(val)} pieces {[x.plain for x in val]!r}, an ordinary string gives {[x.s() for x in exp]!r}")
         for piece, pr in zip(val, exp):
             judge_(site, piece, pr, lambda kind: "divide-order-alias" if kind == "style-order" else None)
         i = pick % len(val)
@@ -509,6 +525,67 @@ def step(sink, t, r, op, first=False):
             raise Failure("expand_tabs", None, "raised " + res[1])
         r = L.ref_expand_tabs(r, ts)
         judge_("expand_tabs", t, r, lambda kind: "divide-order-alias" if kind == "style-order" else None)
+        return t, r
+    if k == "remove_suffix":
+        suf = op[1] if op[1] is not None else (r.s()[len(r.s()) - min(op[2], n):] if op[2] else "")
+        res = py_ans(lambda: t.remove_suffix(suf))
+        single("text_remove_suffix", [enc_str(suf)], (res[0], t if res[0] == "ok" else res[1]), shape="hit" if r.s().endswith(suf) else "miss")
+        if r.s().endswith(suf):
+            r = L.ref_right_crop(r, len(suf))
+        judge_("remove_suffix", t, r, none)
+        return t, r
+    if k == "fit":
+        _, w, pick = op
+        res = py_ans(lambda: list(t.fit(w)))
+        status, val = res
+        sink.case("text_fit", [before, str(w)], L.ans_texts(val) if status == "ok" else "err:" + val)
+        if status != "ok":
+            raise Failure("fit", None, "raised " + val)
+        exp = [L.ref_set_length(x, w) for x in L.ref_split(r, "\n", False, False)]
+        if len(val) != len(exp):
+            raise Failure("fit", None, f"{len(val)} lines, an ordinary string gives {len(exp)}")
+        for piece, pr in zip(val, exp):
+            judge_("fit", piece, pr, none)
+        i = pick % len(val)
+        sink.operands += [x for j, x in enumerate(val) if j != i]
+        return val[i], exp[i]
+    if k == "indent_guides":
+        _, size, ch, st = op
+        got_ind = py_ans(lambda: t.detect_indentation())
+        sink.case("text_detect_indentation", [before], got_ind[1] if got_ind[0] == "ok" else "err:" + got_ind[1])
+        want_ind = L.ref_detect_indentation(r.s())
+        if got_ind != ("ok", want_ind):
+            raise Failure("detect_indentation", None, f"detect_indentation() of {r.s()!r} is {got_ind[1]!r}, the gcd of the even space indents is {want_ind}")
+        sink.passed("detect_indentation")
+        res = py_ans(lambda: t.with_indent_guides(size, character=ch, style=st))
+        single("text_indent_guides", [L.enc_opt(size), enc_str(ch), L.enc_style(st)], res)
+        if "\t" in r.s() and not r.tab_size:
+            sink.note("with_indent_guides:out-of-domain(tab size None)")
+            raise Stop()
+        if res[0] != "ok":
+            raise Failure("with_indent_guides", None, "raised " + res[1])
+        t, r = res[1], L.ref_indent_guides(r, size, ch, st)
+        judge_("with_indent_guides", t, r, lambda kind: "divide-order-alias" if kind == "style-order" else None)
+        return t, r
+    if k == "slice_step":
+        _, a, b, stp = op
+        res = py_ans(lambda: t[a:b:stp])
+        single("text_get_slice", [L.enc_opt(a), L.enc_opt(b), L.enc_opt(stp)], res)
+        if stp == 0:
+            want = ("err", "ValueError")
+        elif stp in (None, 1):
+            want = None
+        else:
+            want = ("err", "TypeError")  # documented: slices with a step are not supported
+        if want is not None:
+            if res != want:
+                raise Failure("__getitem__(slice)", None, f"text[{a}:{b}:{stp}] gave {res!r}, expected {want[1]}")
+            sink.passed("__getitem__(slice)")
+            raise Stop()
+        if res[0] != "ok":
+            raise Failure("__getitem__(slice)", None, "raised " + res[1])
+        t, r = res[1], L.ref_slice(r, a, b)
+        judge_("__getitem__(slice)", t, r, none)
         return t, r
     if k == "copy":
         res = py_ans(lambda: t.copy())
@@ -711,6 +788,9 @@ def run(ctx):
                 ops1 += [(k, c, "-") for k in ("pad", "pad_left", "pad_right") for c in (0, 1, 2)]
                 ops1 += [("split", sep, incl, blank, 0) for sep in ("\n", "\t", "a", " ", ".", "(", "*", "a.") for incl in (False, True) for blank in (False, True)]
                 ops1 += [("append_str", x, st) for x in ("", "z", "\r", "z\x08y") for st in (None, "s3")]
+                ops1 += [("remove_suffix", x, 0) for x in ("", "a", "b", " ", "\n", s[-2:], s)] + [("fit", w, 0) for w in range(0, n + 2)]
+                ops1 += [("split", sep, incl, blank, 0) for sep in ("aa", "aba", "  ") for incl in (False, True) for blank in (False, True)]
+                ops1 += [("slice_step", a, None, stp) for a in (None, 0, 1) for stp in (None, 1, 2, -1, 0)]
                 if base == "":
                     ops1 += [("slice", a, b) for a in [None] + list(rng_i) for b in [None] + list(rng_i)]
                     ops1 += [("stylize", "s4", a, b) for a in rng_i for b in [None] + list(rng_i)]
@@ -722,6 +802,18 @@ def run(ctx):
         t0, _r0 = build((s, "", [], None, 8))
         ctx.check(py_ans(lambda: t0[::2]) == ("err", "TypeError") and py_ans(lambda: t0[::-1]) == ("err", "TypeError"), "__getitem__(slice)", s,
                   "a slice with a step must raise TypeError (documented: not supported)")
+    # indentation guides: every string <= 5 over an alphabet with the classes detect_indentation / with_indent_guides branch on
+    # (U+0020, a non-space, newline, tab, two non-ASCII whitespace characters that must NOT count as indentation)
+    ind_alpha = [" ", "a", "\n", "\t", "\u3000", "\xa0"]
+    ind_strings = ["".join(p) for k in range(0, 5) for p in itertools.product(ind_alpha[:3], repeat=k)]
+    ind_strings += ["".join(p) for k in range(1, 4) for p in itertools.product(ind_alpha, repeat=k)]
+    ind_strings += ["  a\n    b\n\n  c", "    a\n      b", "  a\n \n   b\n", "\u3000\u3000a\n  b", "\ta\n        b", "      a\n    b\n"]
+    for s in ind_strings:
+        n = len(s)
+        for spans in ([], [(0, n, "s1"), (0, min(2, n), "s2")]):
+            for size in (None, 2) if len(s) > 3 else (None, 1, 2, 3):
+                explore(ctx, (s, "s5" if spans else "", spans, None, 4 if "\t" in s else 8), [("indent_guides", size, "│", "s3")])
+                n_sys += 1
     ctx.note("systematic_single_ops", n_sys)
     ctx.flush()
 
